@@ -778,6 +778,9 @@ package writer
 //@   ensures[C01,thorough] gRoot && gMono && err == nil ==> isUvarint(bytesOf(bobj(gB)), gL0 + (gN * ite(result[len(result) - 1] == 71, 4, 2)) + uvarintLen(gDS), uvarintLen((gN * ite(result[len(result) - 1] == 71, 4, 2))), (gN * ite(result[len(result) - 1] == 71, 4, 2)))
 //@   ensures[C01,thorough] gRoot && gMono && err == nil ==> (forall i :: 0 <= i && i < gL0 ==> bytesOf(bobj(gB))[i] == old(bytesOf(bobj(gB)))[i])
 //@   ensures[C01,thorough] gRoot && gMono && gDS <= 2147483647 && gN * 4 <= 2147483647 ==> err == nil
+//   lemma, proved once: the list hypothesis stated over the entry state is the one endList's clauses
+//   are stated over (the same table view, read after the local copy of the top entry was made)
+//@   assert[C01] after ok: gMono ==> (forall k :: 0 <= k && k < len(w.writerState.elements.stack[SE(w, NS(w) - 1).tableStart:NE(w)]) ==> w.writerState.elements.stack[SE(w, NS(w) - 1).tableStart:NE(w)][k].Offset <= w.writerState.elements.stack[SE(w, NS(w) - 1).tableStart:NE(w)][len(w.writerState.elements.stack[SE(w, NS(w) - 1).tableStart:NE(w)])-1].Offset)
 
 // ---- construction
 
